@@ -218,9 +218,48 @@ def h_program_laws(vm, mir, kind):
     return out
 
 
+COMPOUND_OPS = ['with', 'without', 'of', 'over']
+COMPOUND_OPERANDS = ['9003', '"§2"', 'null', 'mysterious', 'true', 'X']
+
+
+def h_compound_law(vm, mir, kind):
+    """`Let X be <op> E` assigns exactly what `Let X be X <op> E` assigns (same outcome, same printed value), for X of every kind"""
+    from .progcommon import instantiate, parsed_program, num_hole, str_hole, describe_holes
+    from ..progrun import exec_in_vm
+    from ..std import conc
+    pre = LAW_PRELUDE[kind]
+    if pre is None: raise Infeasible()
+    op = COMPOUND_OPS[vm.fork(len(COMPOUND_OPS), note='op')]; e = COMPOUND_OPERANDS[vm.fork(len(COMPOUND_OPERANDS), note='operand')]
+    ta = '\n'.join(pre + [f'Let X be {op} {e}', 'say X', 'say X plus 1']) + '\n'
+    tb = '\n'.join(pre + [f'Let X be X {op} {e}', 'say X', 'say X plus 1']) + '\n'
+    holes = {'n1': num_hole(vm, 'n1'), 'n2': num_hole(vm, 'n2'), 'n3': num_hole(vm, 'n3'), 's1': SymStr(str_hole(vm, 's1')), 's2': SymStr(str_hole(vm, 's2'))}
+    d0 = describe_holes(holes)
+    vm.describe = lambda m: dict(d0(m), compound=ta, explicit=tb, law='compound assignment equals its explicit form')
+    ra, oa, _ = exec_in_vm(vm, mir, instantiate(vm, mir, parsed_program(mir, ta), holes))
+    rb, ob, _ = exec_in_vm(vm, mir, instantiate(vm, mir, parsed_program(mir, tb), holes))
+    out = []
+    def bad(role, detail, prop=None):
+        if prop is None: m = model_of(vm)
+        else:
+            v = vm.must_hold(prop, role); m = v.model if v is not None else None
+        if m is not None: out.append(finding('violation', role, detail, vm.describe(m), vm.notes))
+    vm.witness = {'laws-done'}
+    ea, eb = conc(vm, ra).variant == 1, conc(vm, rb).variant == 1
+    if ea != eb: bad('compound-law:outcome', f'`Let X be {op} {e}` {"fails" if ea else "succeeds"} but `Let X be X {op} {e}` {"fails" if eb else "succeeds"}'); return out
+    wa, wb = oa['writes'], ob['writes']
+    if len(wa) != len(wb): bad('compound-law:output-count', f'{len(wa)} vs {len(wb)} lines'); return out
+    for i, (x, y) in enumerate(zip(wa, wb)):
+        c = z3.simplify(to_sym(x) == to_sym(y))
+        if z3.is_false(c): bad('compound-law:value', f'line {i}: the compound form and the explicit form print different values'); break
+        if not z3.is_true(c): bad('compound-law:value', f'line {i}: the compound form and the explicit form print different values', c)
+    return out
+
+
 def jobs(ctx, tier):
     mir = ctx.mir('dev')
     js = []
+    for kind in LAW_PRELUDE:
+        if LAW_PRELUDE[kind] is not None: js.append(Job(f'compound-law/{kind}', h_compound_law, (mir, kind), witness=['laws-done'], fuel=20_000_000, weight=6))
     for kind in LAW_PRELUDE:
         if LAW_PRELUDE[kind] is not None: js.append(Job(f'program-laws/{kind}', h_program_laws, (mir, kind), witness=['laws-done'], fuel=20_000_000, weight=3))
     for ka in range(6):
@@ -285,6 +324,18 @@ def replay(ctx, f):
     cex = f.get('cex') or {}
     law = cex.get('law', f['role'])
     out = {'reproduced': None}
+    if 'compound' in cex:
+        from .progcommon import program_text
+        vals = {k: v for k, v in cex.items() if k in ('n1', 'n2', 'n3', 's1', 's2')}
+        a, b = program_text(cex['compound'], vals), program_text(cex['explicit'], vals)
+        if a is None or b is None: return out
+        res = {}
+        for prof in ('dev', 'release'):
+            ra = ctx.native(prof).call({'op': 'program', 'src': a, 'stdin': ''}, timeout=20); rb = ctx.native(prof).call({'op': 'program', 'src': b, 'stdin': ''}, timeout=20)
+            out[prof + '_native'] = {'compound': (ra.get('result'), ra.get('stdout')), 'explicit': (rb.get('result'), rb.get('stdout'))}
+            res[prof] = (ra.get('result'), ra.get('stdout')) != (rb.get('result'), rb.get('stdout'))
+        out.update(res); out['reproduced'] = any(res.values())
+        return out
     if 'program' in cex:
         # program-level law: run natively and re-judge the printed truth values
         from .progcommon import program_text
